@@ -17,7 +17,7 @@ ID = "C06"
 META = {
     "rule": "sub-products: A = family F(n,m) WITHOUT well-posedness filter x every fixed subset (none, one, several, all, fixed landmarks, isolated fixed vertices) x "
     "fix_first_pose x max_iter alphabet; D = far-off initial guesses (diverging runs) x every fixed subset x max_iter 20; S = solver-fault scripts: every placement of 0, 1 and 2 "
-    "deviating answers {all-NaN, garbage (1e300/inf) in the free rows, raise} within 5 solver calls x spanning graphs x every non-empty fixed subset; H = histories of 2..3 "
+    "deviating answers {all-NaN, garbage (1e300/inf) in the free rows, raise} within 5 solver calls x spanning graphs x every non-empty fixed subset; P = all vertices initialised from ONE shared pose object x every fixed subset (compared bitwise with a twin that uses distinct equal objects); H = histories of 2..3 "
     "consecutive optimize calls with every (fixed subset, fix_first_pose) chosen per call. Oracles: fixed poses bitwise unchanged in every outcome incl. exceptions; fixed flags exactly "
     "as documented; well-posed reduced problems: free vertices = reference reduced Gauss-Newton step (1 iteration) / closed-form reduced WLS optimum (R^n) and all poses finite. "
     "non-trivial = at least one fixed vertex AND (a free vertex moved or the solve failed)",
@@ -25,7 +25,7 @@ META = {
         "solver seam = module global graphslam.graph.spsolve; if it is not called the fault sub-product is skipped and evidence says solver_seam_active=false",
         "fault answers are restricted to what a sparse direct solver can produce (NaN vector for singular systems, garbage in coupled rows, an exception); a solver that returns non-zero for decoupled identity rows is not modelled",
     ],
-    "required_classes": ["all_fixed", "none_fixed", "isolated_fixed_vertex", "fixed_landmark", "singular_natural", "several_fixed", "fault:nan", "fault:raise", "fault:garbage", "history", "diverged_or_nonfinite", "ffp_true", "ffp_false", "reduced_step_checked", "reduced_wls_checked"],
+    "required_classes": ["shared_pose_object", "all_fixed", "none_fixed", "isolated_fixed_vertex", "fixed_landmark", "singular_natural", "several_fixed", "fault:nan", "fault:raise", "fault:garbage", "history", "diverged_or_nonfinite", "ffp_true", "ffp_false", "reduced_step_checked", "reduced_wls_checked"],
     "bounds": {"quick": "A: n=2 m<=2, n=3 m<=2, max_iter in {1,3}; S: 5 solver calls, <=2 deviations; H: 2 calls", "thorough": "A: n=2 m<=3, n=3 m<=2 x 3 vertex orders, max_iter in {1,2,3,5,20}; H: 3 calls"},
 }
 
@@ -43,6 +43,10 @@ def chunks(tier, seed):
     for ti in range(len(F.type_multisets(3))):
         out.append(("S", 3, ti))
         out.append(("H", 3, ti))
+    for n in (2, 3):
+        for ti, types in enumerate(F.type_multisets(n)):
+            if len(set(types)) == 1:
+                out.append(("P", n, ti))
     return out
 
 
@@ -105,6 +109,12 @@ def run_chunk(chunk, tier, seed):
                 continue
             for script in fault_scripts(5):
                 _do(acc, {"t": "S", "types": types, "seed": seed, "edges": ms, "fixed": list(fixed), "ffp": False, "max_iter": 5, "vorder": list(range(n)), "far": False, "script": script})
+    elif sub == "P":
+        # all vertices are initialised from ONE shared pose object (e.g. a single identity() instance): legal, poses are values
+        for ms in F.edge_multisets(len(cands), 2):
+            for fixed in itertools.product((False, True), repeat=n):
+                for ffp in (False, True):
+                    _do(acc, {"t": "P", "types": types, "seed": seed, "edges": ms, "fixed": list(fixed), "ffp": ffp, "max_iter": 2, "vorder": list(range(n))})
     elif sub == "H":
         ms = _spanning(types, cands)
         if ms is None:
@@ -196,6 +206,8 @@ def _eval(case):
     try:
         if case["t"] == "H":
             return _eval_hist(case)
+        if case["t"] == "P":
+            return _eval_shared(case)
         return _eval_single(case)
     except Exception as ex:
         import traceback
@@ -374,3 +386,40 @@ def _eval_hist(case):
                         msgs.append("call %d with fixed=%r: vertex id %r = %r but a fresh graph in the same state gives %r (state leaked between calls)" % (k + 1, eff, before[i][0], after[i][2], exp[i][2]))
                         break
     return msgs, {"outcome": "hist:" + "".join(outc), "classes": ["history"], "calls": len(case["hist"]), "ref_compared": len(case["hist"]), "nontrivial": True}
+
+
+def _eval_shared(case):
+    msgs = []
+    n = len(case["types"])
+    spec = F.make_spec(case["types"], case["seed"], case["edges"], case["fixed"], case["vorder"], None, None)
+    p0 = spec["vertices"][0]["pose"]
+    for v in spec["vertices"]:
+        v["pose"] = list(p0)
+    # twin with distinct (equal) pose objects
+    g2, v2, _ = GB.build(spec)
+    g1, v1, _ = GB.build(spec)
+    shared = v1[0].pose
+    for v in v1:
+        v.pose = shared
+    eff = [bool(f) for f in case["fixed"]]
+    if case["ffp"]:
+        eff[0] = True
+    before = GB.snapshot(v1)
+    out = []
+    for g in (g1, g2):
+        try:
+            GB.optimize(g, tol=0.0, max_iter=case["max_iter"], fix_first_pose=case["ffp"])
+            out.append("r")
+        except Exception as ex:
+            out.append("x:" + type(ex).__name__)
+    a1, a2 = GB.snapshot(v1), GB.snapshot(v2)
+    _check_fixed(msgs, before, a1, eff, "optimize on vertices that share one pose object")
+    if out[0] != out[1]:
+        msgs.append("sharing one pose object between the vertices changes the outcome: %s vs %s" % (out[0], out[1]))
+    else:
+        for i in range(n):
+            if _bits(a1[i][2]) != _bits(a2[i][2]) and a1[i][2] != a2[i][2]:
+                msgs.append("vertices initialised from ONE shared pose object: vertex id %r ends at %r, with distinct equal objects at %r" % (a1[i][0], a1[i][2], a2[i][2]))
+                break
+    moved = any(a1[i][2] != before[i][2] for i in range(n))
+    return msgs, {"outcome": "shared:" + out[0], "classes": ["shared_pose_object"], "calls": 2, "ref_compared": 1, "nontrivial": moved and any(eff)}
